@@ -56,8 +56,10 @@ struct String {
     /// Assigns the string view \a s to this string and returns a reference to this string.
     /// The underlying string data is copied.  It is assumed that the string is UTF-8 encoded.
     String &operator=(std::string_view s) {
-        cbindgen_private::resolvo_string_drop(this);
-        cbindgen_private::resolvo_string_from_bytes(this, s.data(), s.size());
+        // `s` may be a view into this string: build the new value before the old
+        // buffer is released.
+        String copy(s);
+        std::swap(inner, copy.inner);
         return *this;
     }
 
